@@ -97,6 +97,13 @@ Lemma K_gfp_initial_value : gfp_initial_value = None.
 Proof. reflexivity. Qed.
 Lemma K_gfp_reset_on_new_trial : gfp_reset_on_new_trial = None.
 Proof. reflexivity. Qed.
+(* ns-profile / multi-dataset function *)
+Lemma K_prof_logL0_initial : prof_logL0_initial = None. Proof. reflexivity. Qed.
+Lemma K_prof_logL0_point v : prof_logL0_point v = v. Proof. reflexivity. Qed.
+Lemma K_prof_logL0_arg v : prof_logL0_arg v = v. Proof. reflexivity. Qed.
+Lemma K_prof_log_lambda a b : prof_log_lambda a b = a - b. Proof. reflexivity. Qed.
+Lemma K_multi_nsf a b : multi_nsf a b = a * b. Proof. reflexivity. Qed.
+Lemma K_multi_ns2_nsf a b : multi_ns2_nsf a b = multi_nsf a b. Proof. reflexivity. Qed.
 Lemma K_gfp_name_missing n l : gfp_name_missing n l = negb (existsb (Z.eqb n) l).
 Proof. reflexivity. Qed.
 Lemma K_gfp_value_differs x m : gfp_value_differs x m = false <-> m = Some x.
@@ -118,7 +125,8 @@ Global Opaque tdm_sid_initial tdm_init_bump tdm_src_bump tdm_pre_bump tdm_stat_b
   par_store_sid par_store_x1 pd_cache_invalid pd_store_sid pd_use_cache
   i3_sid_none i3_sid_differs i3_key_differs ns2_no_cache ns2_reset_on_new_trial
   gfp_initial_value gfp_name_missing gfp_value_differs gfp_skip_calc gfp_is_srcevt gfp_store_value
-  tdm_has_gfp llh_calc_gfp gfp_reset_on_new_trial.
+  tdm_has_gfp llh_calc_gfp gfp_reset_on_new_trial
+  prof_logL0_initial prof_logL0_point prof_logL0_arg prof_log_lambda multi_nsf multi_ns2_nsf.
 
 (* ------------------------------------------------------------------ part 2 *)
 Section Refine.
@@ -1027,3 +1035,141 @@ Proof.
     rewrite K_tdm_init_bump, K_tdm_pre_skip, K_tdm_stat_skip, K_tdm_pre_bump.
     destruct (c_npre C =? 0); destruct (c_nstat C =? 0); rewrite ?K_tdm_stat_bump; lia.
 Qed.
+
+(* ------------------------------------------------------------------ part 4
+   two datasets (MultiDatasetTCLLHRatio) and the ns-profile function with its
+   remembered null-hypothesis value *)
+Section MultiRefine.
+Variable W : world.
+Variable C : cfg.
+Variable MW : mworld W.
+Variable MC : mcfg.
+Hypothesis Hgrid : grid_ok W.
+Hypothesis Hfree : memo_free C = true.     (* no plain global-fit-parameter field *)
+
+Definition mabs (s : mstate W MW) : msstate W MW :=
+  mkms W MW (abs W (m1 W MW s)) (abs W (m2 W MW s)) (m_l0 W MW s) (m_wsrc W MW s).
+
+Definition MInv (s : mstate W MW) : Prop :=
+  CInv W (m1 W MW s) /\ NoG W C (m1 W MW s) /\ CInv W (m2 W MW s) /\ NoG W C (m2 W MW s).
+
+Lemma comp_step st o st' ob t :
+  CInv W st -> NoG W C st -> step W C st o = (st', ob, t) ->
+  sstep W C (abs W st) o = (abs W st', ob) /\ CInv W st' /\ NoG W C st' /\
+  s_cur st' = src_after W (s_cur st) [o].
+Proof.
+  intros HI HN Es.
+  destruct (step_spec W C Hgrid _ _ _ _ _ HI HN Es) as (I1 & N1 & _ & Ec & Hs & _).
+  split; [apply Hs, (Memo_free W C st Hfree HN)|]. auto.
+Qed.
+
+Lemma comp_eval st ns x st' r t :
+  CInv W st -> NoG W C st -> evaluate W C st ns x = (st', r, t) ->
+  sstep W C (abs W st) (Evaluate W ns x) = (abs W st', OEval W r) /\ CInv W st' /\ NoG W C st' /\
+  s_cur st' = s_cur st.
+Proof.
+  intros HI HN Ee.
+  assert (Es : step W C st (Evaluate W ns x) = (st', OEval W r, t)) by (cbn [step]; rewrite Ee; reflexivity).
+  destruct (comp_step _ _ _ _ _ HI HN Es) as (A & B & D & E). auto.
+Qed.
+
+Lemma meval2_spec s ns x s' r t :
+  MInv s -> meval2 W C MW s ns x = (s', r, t) ->
+  mseval2 W C MW (mabs s) ns x = (mabs s', r) /\ MInv s' /\
+  s_cur (m1 W MW s') = s_cur (m1 W MW s).
+Proof.
+  intros (I1 & N1 & I2 & N2). unfold meval2, mseval2, mabs; cbn [p1 p2 p_l0 p_wsrc].
+  change (ss_cur (abs W (m1 W MW s))) with (s_cur (m1 W MW s)).
+  destruct (evaluate W C (m1 W MW s) (nsf MW (s_cur (m1 W MW s)) 0 ns) x) as [[a r1] t1] eqn:E1.
+  destruct (comp_eval _ _ _ _ _ _ I1 N1 E1) as (S1 & Ia & Na & Ca). rewrite S1. cbn [obs_eval].
+  destruct r1 as [o1|e].
+  - destruct (evaluate W C (m2 W MW s) (nsf MW (s_cur (m1 W MW s)) 1 ns) x) as [[b r2] t2] eqn:E2.
+    destruct (comp_eval _ _ _ _ _ _ I2 N2 E2) as (S2 & Ib & Nb & Cb). rewrite S2. cbn [obs_eval].
+    destruct r2 as [o2|e]; intros E; inversion E; subst; cbn; (split; [reflexivity|]); (split; [|exact Ca]);
+      unfold MInv; cbn; auto.
+  - intros E; inversion E; subst; cbn. split; [reflexivity|]. split; [|exact Ca]. unfold MInv; cbn; auto.
+Qed.
+
+Lemma comp_init st d :
+  CInv W st -> NoG W C st ->
+  fst (sstep W C (abs W st) (InitTrial W d)) = abs W (init_trial W C st d) /\
+  CInv W (init_trial W C st d) /\ NoG W C (init_trial W C st d).
+Proof.
+  intros HI HN.
+  destruct (comp_step st (InitTrial W d) (init_trial W C st d) (ONone W) [] HI HN eq_refl) as (A & B & D & _).
+  rewrite A. auto.
+Qed.
+
+Lemma comp_src st sr :
+  CInv W st -> NoG W C st ->
+  fst (sstep W C (abs W st) (ChangeSource W sr)) = abs W (change_source W C st sr) /\
+  CInv W (change_source W C st sr) /\ NoG W C (change_source W C st sr).
+Proof.
+  intros HI HN.
+  destruct (comp_step st (ChangeSource W sr) (change_source W C st sr) (ONone W) [] HI HN eq_refl) as (A & B & D & _).
+  rewrite A. auto.
+Qed.
+
+Lemma comp_ns2 st n : CInv W st -> NoG W C st ->
+  obs_ns2 W (snd (sstep W C (abs W st) (NsGrad2 W n))) = ns_grad2 W st n.
+Proof.
+  intros HI HN.
+  destruct (comp_step st (NsGrad2 W n) st (ONs2 W (ns_grad2 W st n)) [] HI HN eq_refl) as (A & _).
+  rewrite A. reflexivity.
+Qed.
+
+Lemma mstep_spec s o s' ob t :
+  MInv s -> mstep W C MW MC s o = (s', ob, t) ->
+  msstep W C MW MC (mabs s) o = (mabs s', ob) /\ MInv s'.
+Proof.
+  intros HI. pose proof HI as (I1 & N1 & I2 & N2). destruct o as [d1 d2|ns x|sr|n]; cbn [mstep msstep].
+  - destruct (comp_init _ d1 I1 N1) as (A1 & B1 & D1). destruct (comp_init _ d2 I2 N2) as (A2 & B2 & D2).
+    unfold mabs at 1 2 3 4; cbn [p1 p2 p_l0 p_wsrc]. rewrite A1, A2.
+    set (s1 := mkm W MW (init_trial W C (m1 W MW s) d1) (init_trial W C (m2 W MW s) d2) (m_l0 W MW s) (m_wsrc W MW s)).
+    assert (Hs1 : MInv s1) by (unfold MInv, s1; cbn; auto).
+    change (mkms W MW (abs W (init_trial W C (m1 W MW s) d1)) (abs W (init_trial W C (m2 W MW s) d2))
+              (m_l0 W MW s) (m_wsrc W MW s)) with (mabs s1).
+    rewrite K_prof_logL0_arg, K_prof_logL0_point.
+    destruct (m_profile MC).
+    + destruct (meval2 W C MW s1 (m_ns0 MC) (m_x0 MC)) as [[s2 r] t2] eqn:Ee.
+      destruct (meval2_spec _ _ _ _ _ _ Hs1 Ee) as (S & I' & _). rewrite S.
+      destruct r as [v|e]; intros E; inversion E; subst; cbn; (split; [reflexivity|]).
+      * destruct I' as (a & b & c & d). unfold MInv; cbn; auto.
+      * exact I'.
+    + intros E; inversion E; subst. split; [reflexivity | exact Hs1].
+  - destruct (meval2 W C MW s ns x) as [[s2 r] t2] eqn:Ee.
+    destruct (meval2_spec _ _ _ _ _ _ HI Ee) as (S & I' & _). rewrite S.
+    intros E; inversion E; subst. split; [reflexivity | exact I'].
+  - destruct (comp_src _ sr I1 N1) as (A1 & B1 & D1). destruct (comp_src _ sr I2 N2) as (A2 & B2 & D2).
+    unfold mabs at 1 2 3 4; cbn [p1 p2 p_l0 p_wsrc]. rewrite A1, A2.
+    intros E; inversion E; subst. split; [reflexivity|]. unfold MInv; cbn; auto.
+  - unfold mabs at 1 2 3 4 5; cbn [p1 p2 p_l0 p_wsrc].
+    intros E; inversion E; subst. split; [|exact HI].
+    destruct (m_wsrc W MW s') as [ws|]; [|reflexivity].
+    rewrite (comp_ns2 _ _ I1 N1), (comp_ns2 _ _ I2 N2). reflexivity.
+Qed.
+
+Lemma mrun_spec ops : forall s, MInv s ->
+  mobservations W C MW MC s ops = msrun W C MW MC (mabs s) ops.
+Proof.
+  induction ops as [|o r IH]; intros s HI; [reflexivity|].
+  unfold mobservations in *. cbn [mrun msrun].
+  destruct (mstep W C MW MC s o) as [[s' ob] t] eqn:Es.
+  destruct (mstep_spec _ _ _ _ _ HI Es) as [E1 I1]. rewrite E1. cbn [map fst]. rewrite (IH s' I1). reflexivity.
+Qed.
+
+(* T5: two datasets with or without the ns-profile function: for EVERY history
+   every observation equals the one of the cache-free specification, in which
+   the null-hypothesis value is recomputed from the trial at every
+   initialisation *)
+Theorem mrefines s0 ops :
+  mobservations W C MW MC (minit W C MW s0) ops = msrun W C MW MC (msinit W C MW s0) ops.
+Proof.
+  assert (E : mabs (minit W C MW s0) = msinit W C MW s0).
+  { unfold mabs, minit, msinit; cbn. rewrite abs_init. reflexivity. }
+  rewrite <- E. apply mrun_spec.
+  destruct (init_inv W C s0) as (N & _ & _ & _).
+  unfold MInv, minit; cbn. split; [apply CInv_init|]. split; [exact N|]. split; [apply CInv_init | exact N].
+Qed.
+
+End MultiRefine.
